@@ -154,9 +154,13 @@ def parse_text(text: str, holes: Dict[int, Tuple[str, str]], syms: Dict[str, ZIn
     z = zc()
     p = z.reset_parser(traditional_mode)
     src = LexedSource(z, text, holes, syms, filepath)
+    import contextlib
+    import io
+
     with p.lexer.maintain_filepath(filepath):
         with p.maintain_filepath(filepath):
-            return p.parser.parse("", lexer=src)
+            with contextlib.redirect_stderr(io.StringIO()):  # `typedef` deprecation notices
+                return p.parser.parse("", lexer=src)
 
 
 def parse_template(t: Template, syms: Dict[str, ZInt], filepath: str = "", traditional_mode: bool = False) -> Any:
@@ -176,10 +180,14 @@ def plain_outcome(text: str, filepath: str = "", traditional_mode: bool = False)
     import bitproto.parser as bp_parser
     from bitproto.errors import ParserError
 
+    import contextlib
+    import io
+
     try:
-        if filepath:
-            return "ok", bp_parser.parse(filepath, traditional_mode=traditional_mode)
-        return "ok", bp_parser.parse_string(text, traditional_mode=traditional_mode)
+        with contextlib.redirect_stderr(io.StringIO()):
+            if filepath:
+                return "ok", bp_parser.parse(filepath, traditional_mode=traditional_mode)
+            return "ok", bp_parser.parse_string(text, traditional_mode=traditional_mode)
     except ParserError as e:
         return type(e).__name__, e
     except Exception as e:  # internal error escaping: C09 territory
